@@ -1,7 +1,8 @@
 SPECIFICATION Spec
 CONSTANTS
   Keys = {1, 2}
+  Mutant = "none"
   Topos <- MCTopos
   GenMode = TRUE
-  Depth = 3
+  Depth = 10
 CHECK_DEADLOCK FALSE
